@@ -21,7 +21,7 @@ LAYOUTS = ['blank-lines', 'comment-line', 'trailing-comment', 'block', 'block-he
            'no-final-newline', 'block-member-continuation', 'dedent-two-levels']
 REQUIRED_BUCKETS = (['layout:' + l for l in LAYOUTS] + ['stmt:bind', 'stmt:macro', 'stmt:scoped-macro', 'stmt:import', 'stmt:import-as', 'stmt:from', 'stmt:from-as',
                     'stmt:include', 'value:reference', 'value:macro', 'neg:inner-whitespace', 'neg:empty-component', 'neg:misplaced-separator', 'neg:in-reference',
-                    'neg:in-block-header', 'neg:continuation-inside-name', 'renderings:3+', 'stmt:keyword-named'])
+                    'neg:in-block-header', 'neg:continuation-inside-name', 'neg:spelling-valid-elsewhere-first', 'renderings:3+', 'stmt:keyword-named'])
 ORACLE_COUNTERS = ['oracle_evals', 'streams_compared', 'renderings_parsed', 'negatives_rejected']
 
 NEGATIVES = [
@@ -37,6 +37,10 @@ NEGATIVES = [
     ('neg:continuation-inside-name', 'outer/\\\n      c3f.x = 1'), ('neg:continuation-inside-name', 'c3f.\\\n    x = 1'), ('neg:continuation-inside-name', 'a/b\\\n   /c3f.x = 1'),
     ('neg:continuation-inside-name', 'c3f.x = @a/\\\n           c3g()'), ('neg:continuation-inside-name', 'c3f.x = %a/\\\n           m'),
     ('neg:continuation-inside-name', 'c3\\\n  .m.c3f.x = 1'),
+    # the same spelling is fine where dotted scopes / scopes are allowed (references, macros uses) and malformed as a statement key / import
+    ('neg:spelling-valid-elsewhere-first', 'c3f.x = %x.y/mm\nx.y/mm = 3'), ('neg:spelling-valid-elsewhere-first', 'c3f.x = @x.y/c3g\nx.y/c3g:\n  x = 1\n'),
+    ('neg:spelling-valid-elsewhere-first', 'a/b = 1\nimport a/b'), ('neg:spelling-valid-elsewhere-first', 'c3f.y = @x.y/c3g()\nx.y/c3g.x = 2'),
+    ('neg:spelling-valid-elsewhere-first', 'c3f.y = [%p.q/m, 1]\nc3f.x = 2\np.q/m = 5'), ('neg:spelling-valid-elsewhere-first', 'a/c3mac = 2\nfrom a/c3mac import x'),
     ('neg:in-block-header', 'a /c3f:\n  x = 1\n'), ('neg:in-block-header', 'a//c3f:\n  x = 1\n'), ('neg:in-block-header', 'c3. m.c3f:\n  x = 1\n'),
     ('neg:in-block-header', 'a/c3f.:\n  x = 1\n'), ('neg:in-block-header', '/c3f:\n  x = 1\n'),
 ]
@@ -296,8 +300,17 @@ def run_case(ctx, case):
       # read as reference `@a` followed by junk and may surface as the unknown-reference ValueError first)
       ctx.count('negatives_rejected')
       ctx.bucket('neg-exception:' + type(e).__name__)
-      exp = {('', 'c3.m.c3g'): {'y': canon(5)}} if case['prefix'] else {}
-      ctx.check(snap.store_nonempty(gc) == exp, 'malformed-name-bound-something', 'after rejecting %r the store is %r' % (text, dict(gc._CONFIG)))
+      got_store = snap.store_nonempty(gc)
+      if bucket == 'neg:spelling-valid-elsewhere-first':
+        # everything before the malformed (last) statement is valid and applied
+        gin.clear_config()
+        lines = text.split('\n')
+        cut = max(i for i, l in enumerate(lines) if l and not l.startswith(' '))
+        gin.parse_config(('c3g.y = 5\n' if case['prefix'] else '') + '\n'.join(lines[:cut]) + '\n')
+        exp = snap.store_nonempty(gc)
+      else:
+        exp = {('', 'c3.m.c3g'): {'y': canon(5)}} if case['prefix'] else {}
+      ctx.check(got_store == exp, 'malformed-name-bound-something', 'after rejecting %r the store is %r' % (text, got_store))
     ctx.fp('neg', text)
     return
 
